@@ -126,9 +126,18 @@ pub fn update_position_reply(
     let RemainMarginResponse {
         funding_payment: _,
         margin,
-        bad_debt: _,
+        bad_debt,
         latest_premium_fraction,
     } = calc_remain_margin_with_funding_payment(deps.as_ref(), position.clone(), margin_delta)?;
+
+    // a reducing order that trades the whole position away is a close: like a close it must not
+    // leave bad debt behind (no position remains for the margin check below to judge)
+    if reply_id != INCREASE_POSITION_REPLY_ID
+        && (position.size + signed_output).is_zero()
+        && !bad_debt.is_zero()
+    {
+        return Err(StdError::generic_err("Cannot close position - bad debt"));
+    }
 
     // set the new position
     position.direction = new_direction;
